@@ -40,13 +40,14 @@ type scenario struct {
 	ShortRead bool // proxy-side reads are short-read choice points
 	PingPong  bool   // request/response conversation: each side sends its next chunk only after the other's previous chunk has arrived
 	Route     string // "" direct dial; "downstream": via a downstream proxy; "downstream-coalesced": its 200 shares a segment with the first target bytes
+	Pause     int    // seconds of (virtual) silence each side keeps before writing its last chunk; 0 = none
 }
 
 func (s scenario) String() string {
 	if s.DialErr {
 		return "dial-error"
 	}
-	return fmt.Sprintf("head=%d c=%v t=%v first=%s/%s short=%v pingpong=%v route=%s", s.Head, s.CChunks, s.TChunks, s.Initiator, s.Mode, s.ShortRead, s.PingPong, s.Route)
+	return fmt.Sprintf("head=%d c=%v t=%v first=%s/%s short=%v pingpong=%v route=%s pause=%ds", s.Head, s.CChunks, s.TChunks, s.Initiator, s.Mode, s.ShortRead, s.PingPong, s.Route, s.Pause)
 }
 
 func payload(tag byte, sizes []int) [][]byte {
@@ -135,6 +136,9 @@ func run(sc scenario) (body func(), check func(r *vrt.Result) []finding) {
 				if sc.PingPong && k < len(need) {
 					n := need[k]
 					vrt.WaitUntil("await-peer-data", func() bool { return len(s.got) >= n || s.readDone })
+				}
+				if sc.Pause > 0 && k == len(out)-1 {
+					vrt.Sleep(time.Duration(sc.Pause) * time.Second)
 				}
 				if _, err := s.conn.Write(ch); err != nil {
 					s.wrErr = err
@@ -291,6 +295,12 @@ func run(sc scenario) (body func(), check func(r *vrt.Result) []finding) {
 			runSide(cs, rest, sc.Initiator == "client", br, need)
 		})
 		vrt.WaitQuiescent()
+		if sc.Pause > 0 {
+			// the tunnel stays silent for sc.Pause seconds (well below the proxy's idle timeout) before the last
+			// chunks are written; "promptly" is then judged one virtual second after the pause has ended
+			vrt.Sleep(time.Duration(sc.Pause)*time.Second + time.Second)
+			vrt.WaitQuiescent()
+		}
 		prompt = takeSnap()
 		vrt.Sleep(11 * time.Minute)
 		vrt.WaitQuiescent()
@@ -343,6 +353,9 @@ func run(sc scenario) (body func(), check func(r *vrt.Result) []finding) {
 		}
 		if sc.PingPong {
 			tag += ":pingpong"
+		}
+		if sc.Pause > 0 {
+			tag += ":paused"
 		}
 		// integrity: whatever arrived is a prefix of what was sent (exactly once, in order)
 		if !bytes.HasPrefix(C, ts.got) {
@@ -498,6 +511,17 @@ func scenarios(tier string) []scenario {
 						out = append(out, scenario{Head: head, CChunks: sizes[0], TChunks: sizes[1], Initiator: in, Mode: mode, Route: route, PingPong: true})
 					}
 				}
+			}
+		}
+	}
+	// pauses: a tunnel that stays silent for a while (shorter than the idle timeout) and then carries more data
+	for _, route := range []string{"", "downstream", "downstream-coalesced"} {
+		for _, pause := range []int{11, 200} {
+			for _, in := range []string{"client", "target"} {
+				if tier == "quick" && pause == 200 && in == "target" {
+					continue
+				}
+				out = append(out, scenario{Head: 0, CChunks: []int{1, 2}, TChunks: []int{3, 1}, Initiator: in, Mode: "half", Route: route, Pause: pause})
 			}
 		}
 	}
@@ -680,7 +704,7 @@ func main() {
 	rep.Coverage["traces_validated_against_impl"] = rep.Counter("executions")
 	rep.Coverage["bound_completed"] = minBound
 	rep.Coverage["exhaustive"] = rep.Incomplete == ""
-	rep.Coverage["bounds"] = fmt.Sprintf("%d scenarios (4 early-data placements x client/target chunk lists {[],[3],[1,2]} x who finishes first x full/half close; large sizes 4097/5003/32769 bytes; short-read variants; dial error); downstream-proxy route; every schedule with <= %d deviations (one less for large sizes)", len(scen), bound)
+	rep.Coverage["bounds"] = fmt.Sprintf("%d scenarios (4 early-data placements x client/target chunk lists {[],[3],[1,2]} x who finishes first x full/half close; large sizes 4097/5003/32769 bytes; short-read variants; dial error); downstream-proxy route; silent periods of 11 s and 200 s of virtual time before the last chunks; every schedule with <= %d deviations (one less for large sizes)", len(scen), bound)
 	rep.Coverage["explanation"] = "each execution runs the real proxy.go CONNECT path over simnet under the gosim scheduler; prompt = first quiescent point with zero virtual time elapsed (no timeout can have fired)"
 	rep.Assumptions = []string{"simnet models TCP (coalescing reads, FIN on close / CloseWrite, writes to a closed peer fail from the second write on)", "real-time pauses are represented by interleavings"}
 	rep.Finish()
